@@ -133,6 +133,30 @@ def main():
         else:
             run.add(ob.name, 'error', 0, dict(model=mrep, real=real))
             run.harness_error(f'file-system model and real directory disagree on {call}: model={mrep} real={real}')
+    # concrete companion (not a solver verdict): a name is re-bound when a different model is stored under it
+    code = r"""
+import tempfile, warnings, json
+warnings.simplefilter('ignore')
+from pharmpy.workflows import LocalDirectoryContext
+from pharmpy.modeling import load_example_model, fix_parameters, set_name, set_description
+m1 = set_description(set_name(load_example_model('pheno'), 'final'), 'first')
+m2 = set_description(set_name(fix_parameters(m1, ['POP_CL']), 'final'), 'second')
+ctx = LocalDirectoryContext('ctx', tempfile.mkdtemp(prefix='c16name'))
+ctx.store_model_entry(m1); ctx.store_model_entry(m2)
+me = ctx.retrieve_model_entry('final')
+print('REPLAY ' + json.dumps(dict(ok=bool(me.model.parameters['POP_CL'].fix) and me.model.description == 'second',
+      description=me.model.description, pop_cl_fixed=bool(me.model.parameters['POP_CL'].fix))))
+"""
+    p = subprocess.run([PY, '-W', 'ignore', '-c', code], capture_output=True, text=True, timeout=300)
+    rep = next((json.loads(l[7:]) for l in p.stdout.splitlines() if l.startswith('REPLAY ')), None)
+    if rep is None:
+        run.add('name_rebind', 'inconclusive', 0, p.stderr[-300:])
+    elif rep['ok']:
+        run.add('name_rebind', 'discharged', 0, rep)
+    else:
+        v = run.report_violation('name_rebind', 'name_rebind store(m1 as final); store(m2 as final); retrieve(final)',
+                                 dict(kind='script', code=code), f'retrieving by name returns {rep}')
+        run.add('name_rebind', v, 0, rep)
     ndis = sum(1 for o in run.obligations if o['verdict'] == 'discharged')
     for o in obs[:4]:
         run.sample(dict(obligation=o.name, func=o.func, env=o.env))
